@@ -211,6 +211,9 @@ class Soap11(XmlDocument):
 
         ctx.in_document = envelope_xml
 
+        if body_document is None:
+            raise Fault('Client.SoapError', "Soap Body must not be empty")
+
         if body_document.tag == '{%s}Fault' % self.ns_soap_env:
             ctx.in_body_doc = body_document
 
